@@ -5,6 +5,7 @@ import (
 	"fmt"
 	"os"
 	"path/filepath"
+	"regexp"
 	"strings"
 
 	"github.com/attestantio/dirk/services/checker"
@@ -208,6 +209,11 @@ func cmdPerms(args []string) int {
 			}
 			op := allOps[rng.Intn(len(allOps))]
 			got := svc.Check(ctx, &checker.Credentials{Client: client}, path, op)
+			// the documented meaning, written a second time: entries in order; within a matching entry
+			// the first of none / ~op / all / op decides; no decision = refused
+			if want, ok := specCheck(pc, client, path, op); ok && want != got {
+				monFail = append(monFail, fmt.Sprintf("permissions {%s}: Check(client=%q, %q, %q) = %v, but the first deciding item of the first matching entries says %v", pc.text(), client, path, op, got, want))
+			}
 			id++
 			kcases = append(kcases, fmt.Sprintf(" KC %s %d %s %s %s %s", coqN(id), ti, coqStr(client), coqStr(path), coqStr(op), coqBool(got)))
 			idx[fmt.Sprint(id)] = fmt.Sprintf("permissions {%s} Check(client=%q, %q, %q) = %v", pc.text(), client, path, op, got)
@@ -258,4 +264,51 @@ func cmdPerms(args []string) int {
 
 func newChecker(ctx context.Context, pc *permConfig) (checker.Service, error) {
 	return staticchecker.New(ctx, staticchecker.WithPermissions(pc.toDirk()))
+}
+
+// specCheck is a second, independent reading of the permission semantics (whole-name, case-insensitive
+// match of wallet and account; entries in order; first deciding operation item wins). ok=false when
+// the request path is not of the plain forms wallet or wallet/account.
+func specCheck(pc *permConfig, client, path, op string) (bool, bool) {
+	if client == "" {
+		return false, true
+	}
+	parts := strings.SplitN(path, "/", 2)
+	if parts[0] == "" || strings.Contains(path, "//") {
+		return false, false
+	}
+	wallet, account := parts[0], ""
+	if len(parts) == 2 {
+		account = parts[1]
+	}
+	if strings.Contains(account, "/") {
+		return false, false
+	}
+	entries, exists := pc.Entries[client]
+	if !exists {
+		return false, true
+	}
+	for _, e := range entries {
+		wre, err1 := regexp.Compile("(?i)^(?:" + e.W.goText() + ")$")
+		at := ".*"
+		if !e.A.Empty {
+			at = e.A.goText()
+		}
+		are, err2 := regexp.Compile("(?i)^(?:" + at + ")$")
+		if err1 != nil || err2 != nil {
+			return false, false
+		}
+		if !wre.MatchString(wallet) || !are.MatchString(account) {
+			continue
+		}
+		for _, item := range e.Ops {
+			switch {
+			case strings.EqualFold(item, "none"), strings.EqualFold(item, "~"+op):
+				return false, true
+			case strings.EqualFold(item, "all"), strings.EqualFold(item, op):
+				return true, true
+			}
+		}
+	}
+	return false, true
 }
